@@ -24,8 +24,13 @@ R = Rules(
         "store except through encrypt; the outer code is POST / FETCH / the request's response style on exactly the paths RFC 8613 says; "
         "CodeStyle.from_request is evaluated once per Code member (kit.ConcreteRunner) and must return, for code c, only a style whose request code is c.  "
         "C11.b: the external AAD array carries request_id.kid/partial_iv, on every path of unprotect that reaches decrypt the "
-        "nonce inputs are the message's own when it carries a partial IV and the request's otherwise, a reused nonce comes from "
-        "get_reusable_kid_and_piv which clears the reuse flag on every path that hands out a pair.  C11.c: the nonce value returned by "
+        "nonce inputs are the message's own when it carries a partial IV and the request's otherwise (queries on the map of header fields are "
+        "values of the moment they are evaluated at, so a named flag survives a later pop); on every returning path of protect the encryption "
+        "whose result leaves the function uses a nonce rebuilt from the two components of one single request_id.get_reusable_kid_and_piv() call or "
+        "the nonce of one _build_new_nonce() call, an AAD over the caller's request identifiers or -- on a path decided to be a request -- "
+        "RequestIdentifiers(own sender ID, the partial IV that went into that very nonce), and with a fresh nonce the map compressed into the "
+        "option holds the partial IV of the same _build_new_nonce() call; get_reusable_kid_and_piv clears the reuse flag on every path that "
+        "hands out a pair.  C11.c: the nonce value returned by "
         "_construct_nonce equals RFC 8613 section 5.2; a fresh partial IV is the 5-byte big-endian sequence number, sent without leading zeros.  "
         "C11.d: on every path of _compress the option emitted equals the RFC 8613 section 6.1 encoding of exactly the fields present, on "
         "every returning path of _uncompress the fields returned are exactly the windows of the option the flag bits announce; reserved bits are refused.  C11.e: the "
